@@ -47,6 +47,17 @@ func AutoInstant(unit int, v interface{}) (time.Time, bool) {
 // It returns class (what was verified: "scan", "default:<type>",
 // "returning", "autotime") and, on failure, a short kind and a detail text.
 func CheckField(sp *Spec, slot int, given, memF, readF interface{}, ctx FieldCtx) (class, kind, detail string) {
+	if sp.NoColumn {
+		// nothing is stored: the fresh record has the zero value, the in-memory
+		// record keeps what the caller put there
+		if !reflect.ValueOf(readF).IsZero() {
+			return "", "a field excluded from the table was read back non-zero", fmt.Sprintf("read %s", Norm(readF))
+		}
+		if ctx.HasMem && Norm(memF) != Norm(given) {
+			return "", "Create changed a field excluded from the table", fmt.Sprintf("in memory %s given %s", Norm(memF), Norm(given))
+		}
+		return "nocolumn", "", ""
+	}
 	zero := sp.Zero(slot, given)
 	subst := !ctx.FromMap && zero
 	switch {
